@@ -58,6 +58,18 @@ def build_real():
     return ok, os.path.join(bdir, "conc_drv"), log
 
 
+def translate():
+    ok, probs = vlib.translate()
+    # scratch-repo runs build in a mirror of the Coq tree whose compiled files are copied from the main tree:
+    # make sure everything that depends on the regenerated Gen/SrcWaker.v is rebuilt against it
+    if vlib.COQ != vlib.COQ_SRC:
+        try:
+            os.utime(os.path.join(vlib.COQ, "Gen", "SrcWaker.v"), None)
+        except OSError:
+            pass
+    return ok, probs
+
+
 def build_model():
     ok, log = vlib.coq_build(["W/Extract.vo"])
     if not ok:
@@ -185,7 +197,7 @@ def gen_waker_case(rng, prop, big=False):
         scripts[t] = sc
     body = ["spawn"] * nt
     for _ in range(rng.randint(0, 4)):
-        body.append("poll")
+        body.append(rng.choice(["poll", "pollif", "pollif"]))
     if prop == "C12" or rng.random() < 0.3:
         for _ in range(rng.randint(0, 3)):
             body.append("new %d" % extra_new)                         # may reuse a freed slot
@@ -193,9 +205,9 @@ def gen_waker_case(rng, prop, big=False):
             body.append("poll")
     rest = body[nt:]
     rng.shuffle(rest)
-    main += body[:nt] + rest + ["join", "poll"]
+    main += body[:nt] + rest + ["join", rng.choice(["poll", "pollif", "pollif"])]
     if rng.random() < 0.3:
-        main.append("poll")
+        main.append("pollif")
     # wakers created late can be woken by main itself
     scripts[0] = main
     est = 6 * sum(len(v) for v in scripts.values())
@@ -223,17 +235,17 @@ def gen_chan_case(rng):
         if rng.random() < 0.3:
             sc.append("closed %d" % rng.randrange(nc))
         scripts[t] = sc
-    body = ["poll"] * rng.randint(0, 3)
+    body = [rng.choice(["poll", "pollif"]) for _ in range(rng.randint(0, 3))]
     for c in range(nc):
         if rng.random() < 0.6:
             body.append("cdrop %d" % c)
     if rng.random() < 0.3:
         body.append("send 0 %d" % msg)
     rng.shuffle(body)
-    main += ["spawn"] * ns + body + ["join", "poll"]
+    main += ["spawn"] * ns + body + ["join", rng.choice(["poll", "pollif", "pollif"])]
     for c in range(nc):
         if rng.random() < 0.3 and ("cdrop %d" % c) not in main:
-            main += ["cdrop %d" % c, "poll"]
+            main += ["cdrop %d" % c, "pollif"]
     scripts[0] = main
     est = 8 * sum(len(v) for v in scripts.values())
     return Case(scripts, gen_sched(rng, ns, est), rng.randint(1, 2 ** 31), "chan")
@@ -267,7 +279,7 @@ def gen_pipe_case(rng):
         for _ in range(n_send):
             body.append("psend %d %d" % (p, msg))
             msg += 1
-    body += ["poll"] * rng.randint(0, 3)
+    body += [rng.choice(["poll", "pollif"]) for _ in range(rng.randint(0, 3))]
     rng.shuffle(body)
     main += body
     # always drop the pipes before joining (a worker blocked in recv would otherwise be a legitimate deadlock)
@@ -278,7 +290,7 @@ def gen_pipe_case(rng):
         drops = drops[1:]
         if rng.random() < 0.5:
             main.append("psend 0 %d" % msg)      # after drop: bad command (handle gone)
-    main += drops + ["join", "poll"]
+    main += drops + ["join", rng.choice(["poll", "pollif", "pollif"])]
     scripts[0] = main
     est = 8 * sum(len(v) for v in scripts.values())
     return Case(scripts, gen_sched(rng, np_, est), rng.randint(1, 2 ** 31), "pipe")
@@ -295,11 +307,11 @@ def gen_mixed_case(rng):
             scripts[t].append(rng.choice(["wake %d" % w, "send 0 %d" % (100 * t + k), "wake %d" % w]))
         if rng.random() < 0.4:
             scripts[t].append("drop %d" % w)
-    body = ["poll", "poll", "psend 0 900", "psend 0 901", "cdrop 0", "pdrop 0"]
+    body = ["poll", "pollif", "psend 0 900", "psend 0 901", "cdrop 0", "pdrop 0"]
     rng.shuffle(body)
     if "pdrop 0" not in body[:]:
         body.append("pdrop 0")
-    main += body + ["join", "poll"]
+    main += body + ["join", rng.choice(["poll", "pollif"])]
     scripts[0] = main
     est = 8 * sum(len(v) for v in scripts.values())
     return Case(scripts, gen_sched(rng, 3, est), rng.randint(1, 2 ** 31), "mixed")
@@ -580,7 +592,7 @@ def run(prop, tier, seed):
     shutil.rmtree(os.path.join(vlib.OUT, "replay", prop), ignore_errors=True)
     problems = []
     # 1. translator, proofs
-    ok, tprobs = vlib.translate()
+    ok, tprobs = translate()
     if not ok:
         problems += ["translator: " + p for p in tprobs]
     audit = vlib.props_audit(prop, PINS[prop])
@@ -721,7 +733,7 @@ def run(prop, tier, seed):
 
 def replay(prop, path):
     case = parse_case(open(path).read())
-    vlib.translate()
+    translate()
     okr, conc, rlog = build_real()
     if not okr:
         raise RuntimeError("harness/w does not build against %s" % vlib.REPO)
